@@ -170,7 +170,7 @@ def registry_ends(ck):
         if rng.random() < 0.6:
             raw.append(reg_shape(rng))
         else:
-            raw.append(C5.gen_case(rng, rng.randint(4, 30 if ck.thorough else 14), [1, 1]))
+            raw.append(C5.gen_case(rng, rng.randint(4, 30 if ck.thorough else 14), C5.FIXED))
     try:
         wf = vlib.run_driver("C03", "C03_reg_wf", [vlib.vs(c) for c in raw])
     except vlib.Broken as b:
